@@ -114,9 +114,29 @@ def run(desc, ctx):
     ctx.nontrivial(n_models >= 1 and (learned + blocking >= 1 or (has_unit and any(len(c) >= 3 for c in clauses))))
 
 
+def deep_default_cases(tier):
+    """Long enumerations with every tuning parameter at its default (luby_factor 100): the clause database is reduced
+    twice or more, so what a reduction does to the blocking clauses it kept decides whether a model comes back.
+    A pure function of VERIF_SEED (no Hypothesis here: with two examples per worker it mostly draws its simplest case)."""
+    import os, random
+
+    rng = random.Random(int(os.environ.get("VERIF_SEED", "1")) * 7919 + 17)
+    out = []
+    for i in range(4 if tier == "quick" else 16):
+        n = 12 if tier == "quick" else rng.choice([12, 13])
+        vs = list(range(1, n + 1))
+        cl = [list(vs), [-v for v in vs]]
+        for _ in range(i % 3):  # 0, 1, 2 extra clauses of 5-6 literals: the model count stays above 3700
+            idx = rng.sample(range(n), rng.choice([5, 6]))
+            cl.append([vs[j] if rng.random() < 0.5 else -vs[j] for j in idx])
+        out.append({"family": "deep", "clauses": cl, "assumptions": [], "opts": {"solution_limit": 10**6, "luby_factor": 100, "max_restarts": 10_000, "max_conflicts": 100_000}})
+    return out
+
+
 SUBS = [
     Sub("mixed", run, strategy=lambda tier: cnf.mixed(tier), quick=800, thorough=8000, workers_quick=4),
     Sub("gadget", run, strategy=lambda tier: cnf.gadget_cnf(), quick=5000, thorough=30000, workers_quick=4),
-    Sub("deep", run, strategy=lambda tier: cnf.deep_cnf(10, 13 if tier == "thorough" else 12), quick=6, thorough=12, workers_quick=4, case_timeout=300),
+    Sub("deep", run, strategy=lambda tier: cnf.deep_cnf(12 if tier == "quick" else 10, 13 if tier == "thorough" else 12), quick=1, thorough=12, workers_quick=4, case_timeout=300),
+    Sub("deep_default", run, enumerate=deep_default_cases, workers_quick=4, workers_thorough=16, case_timeout=300),
 ]
 AMPLIFY = [("mixed", 15000, 4)]  # (sub-check, executions, parallel copies) for the thorough tier (vf/fuzz.py)
